@@ -19,7 +19,8 @@ Directive grammar (each on its own line, leading whitespace allowed):
   //@ before "TEXT" [#k]    ... before the k-th (default: only) occurrence of TEXT in the body
   //@ after "TEXT" [#k]     ... after that occurrence (TEXT should end at a statement end)
   //@ subst "A" => "B"      declared textual substitution inside the copied item (rule R11; listed
-                            in evidence with both texts; must match exactly once unless #all)
+                            in evidence with both texts; must match exactly once unless #all;
+                            `subst?` = apply if present, skip silently if the text is absent)
   //@ end                   end of the item block
 
 Plain lines outside item blocks are copied verbatim (they are specification text: spec fns, lemmas,
@@ -487,7 +488,9 @@ def extract_item(path, selector, opts, directives, findings_open):
     # declared substitutions (R11)
     for (a, b, allflag) in directives.get("subst", []):
         n = text.count(a)
-        if n == 0 or (n != 1 and not allflag):
+        if n == 0 and allflag == "opt":
+            continue    # `subst?`: the construct is not (any longer) in the code; nothing to name
+        if n == 0 or (n != 1 and allflag != "all"):
             raise ExtractError("anchor lost: subst text %r occurs %d times in %s %s" % (a, n, path, selector))
         text = text.replace(a, b)
         pc.substs.append({"from": a, "to": b, "count": n}); rules.append("R11")
@@ -738,11 +741,12 @@ def generate(spec_path, open_findings=()):
                             q, rest = _parse_quoted(d2[len(kind):])
                             k = int(rest.strip()[1:]) if rest.strip().startswith("#") else None
                             cur = (kind, q, k)
-                        elif d2.startswith("subst "):
-                            a, rest = _parse_quoted(d2[6:])
+                        elif d2.startswith("subst ") or d2.startswith("subst? "):
+                            optional = d2.startswith("subst? ")
+                            a, rest = _parse_quoted(d2[7 if optional else 6:])
                             if not rest.startswith("=>"): raise ExtractError("bad subst: %s" % d2)
                             b, rest2 = _parse_quoted(rest[2:])
-                            directives.setdefault("subst", []).append((a, b, rest2.strip() == "#all"))
+                            directives.setdefault("subst", []).append((a, b, "all" if rest2.strip() == "#all" else ("opt" if optional else "")))
                         else:
                             raise ExtractError("unknown directive: %s" % s2)
                     else:
